@@ -8,6 +8,7 @@ package main
 // that runs out under a healthy dispatcher turns a nack-with-delay into an immediate requeue).
 
 import (
+	"fmt"
 	"context"
 	"encoding/json"
 	"io"
@@ -118,4 +119,4 @@ func maxInt(a, b int) int {
 	return b
 }
 
-func itoa(i int) string { return string(rune('0'+i/10)) + string(rune('0'+i%10)) }
+func itoa(i int) string { return fmt.Sprintf("%02d", i) }
